@@ -1374,6 +1374,8 @@ class Interp:
             return VStr(str_lit(v))
         if v is Ellipsis:
             return VConst("...")
+        if isinstance(v, float) and "float-constant" in self.e.intrinsics:
+            return self.e.intrinsics["float-constant"](self, v)
         raise OutOfSubset(f"constant {v!r}")
 
     def e_Name(self, n: ast.Name) -> V:
@@ -1469,7 +1471,10 @@ class Interp:
         if isinstance(n.op, ast.Not):
             return VBool(Not(self.ctx.truthy(v).t))
         if isinstance(n.op, ast.USub) and isinstance(v, VInt):
-            return VInt(app("-", v.t))
+            k = _int_lit(v.t)
+            return VInt(_lit_term(-k) if k is not None else app("-", v.t))
+        if isinstance(n.op, ast.USub) and f"neg:{v.sort}" in self.e.intrinsics:
+            return self.e.intrinsics[f"neg:{v.sort}"](self, v)
         raise OutOfSubset(f"unary {type(n.op).__name__} on {v.sort}")
 
     def e_BinOp(self, n: ast.BinOp) -> V:
@@ -1549,6 +1554,9 @@ class Interp:
             sym = {ast.Gt: "str.<", ast.GtE: "str.<="}.get(type(op))
             if sym:
                 return VBool(app(sym, b.t, a.t))
+        h = self.e.binop_hooks.get(f"cmp:{a.sort}") or self.e.binop_hooks.get(f"cmp:{b.sort}")
+        if h:
+            return h(self, op, a, b)
         raise OutOfSubset(f"compare {type(op).__name__} on {a.sort},{b.sort}")
 
     def is_same(self, a: V, b: V) -> VBool:
